@@ -4,8 +4,11 @@ C07 -- traversal order is the canonical BFS / DFS order induced by link order.
 
 from __future__ import annotations
 
+import random
+import sys
+
 from egverif.props import c06
-from egverif import oracles, trav
+from egverif import graphs, oracles, trav
 
 RULE = (
     "same case stream as C06; for each case bft is compared element-wise with a level-synchronous reference BFS "
@@ -20,11 +23,78 @@ WANT = {"C07"}
 
 def floors(ctx):
     return {"evaluations": 3000 if ctx.tier == "quick" else 30000,
-            "graphs_orders_all_differ": 300 if ctx.tier == "quick" else 3000, "graphs_with_former_members": 20, "graphs_with_former_links": 20}
+            "graphs_orders_all_differ": 300 if ctx.tier == "quick" else 3000, "graphs_with_former_members": 20, "graphs_with_former_links": 20,
+            "traversals_called_from_a_deep_caller": 100}
+
+
+def _frames():
+    n, f = 0, sys._getframe()
+    while f is not None:
+        n, f = n + 1, f.f_back
+    return n
+
+
+def _descend(n, fn):
+    return fn() if n <= 0 else _descend(n - 1, fn)
+
+
+def at_depth(free, fn):
+    """Call fn() from a caller that has only `free` interpreter frames left below the recursion limit."""
+    return _descend(sys.getrecursionlimit() - _frames() - free - 3, fn)
+
+
+def broom(handle, fan):
+    """A chain of `handle` vertices whose last one fans out into `fan` branches of two vertices each, cross-linked."""
+    n = handle + 2 * fan
+    edges = [["DirectedEdge", i, i + 1, i] for i in range(handle - 1)]
+    for k in range(fan):
+        a = handle + 2 * k
+        edges += [["DirectedEdge", handle - 1, a, a], ["DirectedEdge", a, a + 1, a + 1]]
+        if k:
+            edges.append(["UnDirectedEdge", a, a - 1, 50 + k])
+    return {"verts": ["Vertex"] * n, "edges": edges, "uni": list(range(n))}
+
+
+def caller_stack_depth(ctx, rng):
+    """
+    The listing is a function of the graph alone: the same call made from a caller that sits deep in the interpreter
+    stack (a recursive-descent parser, a GUI callback under a deep widget tree) gives the same sequence - or, if the
+    remaining frames do not suffice, RecursionError; never another order.
+    """
+    specs = [broom(h, f) for h in (2, 4, 6, 9, 12) for f in (2, 3)]
+    for _ in range(ctx.n(12)):
+        specs.append(graphs.rand_spec(rng, nmax=9, mmax=16, uni_mode="all", ecls=graphs.ECLS_DU, vcls=graphs.VCLS_PLAIN))
+    for spec in specs:
+        for key in ("half", "edges_gone", "extra", "uni_gone"):
+            spec.pop(key, None)
+        for name, (lf, _gf) in trav.TRAV.items():
+            g = graphs.build(spec)
+            if g.uni is None or not g.uni.vertices:
+                continue
+            kw = dict(direction_sensitive=oracles.FORWARD, unknown_handling=oracles.NEIGHBOR)
+            top = oracles.outcome(lf, g.uni, g.verts[0], **kw)
+            if top[0] != "ok":
+                continue
+            for free in (40, 46, 52, 56, 60, 66, 75, 90, 120):
+                deep = at_depth(free, lambda: oracles.outcome(lf, g.uni, g.verts[0], **kw))
+                ctx.evaluated()
+                if deep[0] == "exc" and deep[1] is RecursionError:
+                    ctx.count("deep_caller_runs_out_of_frames")
+                    continue
+                ctx.count("traversals_called_from_a_deep_caller")
+                ctx.nontrivial(("deep", name, free, str(g.names(top[1]))))
+                if deep[0] != "ok" or not oracles.same_identities(deep[1], top[1]):
+                    ctx.violation(f"{name}:order_depends_on_caller_stack_depth",
+                                  f"{name} called with {free} interpreter frames left gives "
+                                  f"{g.names(deep[1]) if deep[0] == 'ok' else deep}; from the top level {g.names(top[1])}; "
+                                  f"edges={spec['edges']}", {"deep_caller": True, "spec": spec})
+                    break
 
 
 def run(ctx):
     c06.run(ctx, want=WANT, scale=2)
+    if ctx.shard in (0, 7):
+        caller_stack_depth(ctx, random.Random(ctx.seed * 7919 + ctx.shard))
     ctx.assumptions[:] = [
         "neighbour order is the real neighbors() order (C03/C04 pin link order and neighbors)",
         "filters are pure; start is a member of the universe (or universe is None)",
@@ -32,6 +102,11 @@ def run(ctx):
 
 
 def replay(ctx, case):
+    if case.get("deep_caller"):
+        caller_stack_depth(ctx, random.Random(0))
+        ctx.nontrivial("replay-a")
+        ctx.nontrivial("replay-b")
+        return
     with oracles.NeighborCounter() as nc:
         trav.run_case(ctx, nc, case["spec"], case["start"], case["dir"], case["unk"], case["via"], case["res"],
                       case["cache"], WANT, then=case.get("then"))
